@@ -3,6 +3,7 @@
   Frame properties of the heap model: which cells and which checker bindings an operation can write.
 -/
 import IcontractModel.Meta
+import IcontractModel.Lemmas.MetaFrame
 namespace Icontract.Meta
 
 /-- everything introspection can show about the functions and classes that exist in `w` is a function of
@@ -16,7 +17,7 @@ world, bases, namespace - accepted or not. -/
 theorem C17_defineClass_preserves_existing_cells (w w' : World) (k : ClsId) (bases : List ClsId)
     (ns : List (String × Member)) (dbc hook : Bool)
     (h : defineClass w k bases ns dbc hook = .ok w') : Preserves w w' := by
-  sorry
+  exact (defineClass_summary w w' k bases ns dbc hook h).1
 
 /-- ... it re-binds the checker attributes of the functions in its own namespace only -/
 theorem C17_defineClass_rebinds_only_own_functions (w w' : World) (k : ClsId) (bases : List ClsId)
@@ -24,14 +25,15 @@ theorem C17_defineClass_rebinds_only_own_functions (w w' : World) (k : ClsId) (b
     (h : defineClass w k bases ns dbc hook = .ok w')
     (f : FnId) (hf : ∀ p ∈ ns, ∀ which, memberFnId p.2 which ≠ some f) :
     w'.checker? f = w.checker? f := by
-  sorry
+  exact (defineClass_summary w w' k bases ns dbc hook h).2.1 f
+    (fun ⟨p, hp, which, hw⟩ => hf p hp which hw)
 
 /-- ... and leaves every earlier class's own namespace, invariant references and MRO alone -/
 theorem C17_defineClass_keeps_earlier_classes (w w' : World) (k : ClsId) (bases : List ClsId)
     (ns : List (String × Member)) (dbc hook : Bool)
     (h : defineClass w k bases ns dbc hook = .ok w') (hk : w.cls? k = none) :
     ∀ c ∈ w.classes, c ∈ w'.classes := by
-  sorry
+  exact (defineClass_summary w w' k bases ns dbc hook h).2.2 hk
 
 /-- hence the contracts of a function that the new class does not define are exactly what they were -/
 theorem C17_earlier_function_contracts_unchanged (w w' : World) (k : ClsId) (bases : List ClsId)
@@ -42,12 +44,17 @@ theorem C17_earlier_function_contracts_unchanged (w w' : World) (k : ClsId) (bas
     (hwf : ck.pre < w.heap.length ∧ ck.snaps < w.heap.length ∧ ck.posts < w.heap.length ∧
            ∀ g ∈ w.heap.get ck.pre, g < w.heap.length) :
     preOf w' f = preOf w f ∧ postsOf w' f = postsOf w f ∧ snapsOf w' f = snapsOf w f := by
-  sorry
+  have hp := C17_defineClass_preserves_existing_cells w w' k bases ns dbc hook h
+  have hc := C17_defineClass_rebinds_only_own_functions w w' k bases ns dbc hook h f hf
+  obtain ⟨h1, h2, h3, h4⟩ := hwf
+  simp only [preOf, postsOf, snapsOf, hc, hck, hp.1 _ h1, hp.1 _ h2, hp.1 _ h3]
+  refine ⟨?_, trivial, trivial⟩
+  exact List.map_congr_left (fun g hg => hp.1 g (h4 g hg))
 
 /-- **Decorating a fresh function** (one without a checker yet) writes to no existing cell -/
 theorem C17_decorating_fresh_function_preserves (w : World) (f : FnId) (c : CId) (h : w.checker? f = none) :
     Preserves w (addPre w f c) ∧ Preserves w (addPost w f c) := by
-  sorry
+  exact ⟨addPre_fresh w f c h, addPost_fresh w f c h⟩
 
 /-- **The invariant decorator on a class that owns its three lists** (always the case for a class on the
 contract-inheriting base whose bases carry invariants - C04_subclass_gets_own_invariant_lists - and
@@ -57,12 +64,16 @@ theorem C17_invariant_decorator_writes_own_lists_only (w : World) (k : ClsId) (c
     (h1 : cls.inv = some r1) (h2 : cls.invCall = some r2) (h3 : cls.invSetattr = some r3)
     (hmro : cls.mro.head? = some k) :
     ∀ r, r ≠ r1 → r ≠ r2 → r ≠ r3 → (addInvariant w k c on).heap.get r = w.heap.get r := by
-  sorry
+  intro r hr1 hr2 hr3
+  rw [addInvariant_own w k c on cls hc r1 r2 r3 h1 h2 h3 hmro]
+  cases on.setattr <;> cases on.call <;>
+    simp only [Bool.false_eq_true, if_true, if_false, Heap.get_append_ne _ _ _ _ hr1,
+      Heap.get_append_ne _ _ _ _ hr2, Heap.get_append_ne _ _ _ _ hr3]
 
 /-- first invariant of a class with no reachable list: three fresh cells, nothing existing is touched -/
 theorem C17_first_invariant_allocates (w : World) (k : ClsId) (c : CId) (on : CheckOn)
     (cls : Cls) (hc : w.cls? k = some cls) (hnone : lookupInv w k .all = none) :
     ∀ r < w.heap.length, (addInvariant w k c on).heap.get r = w.heap.get r := by
-  sorry
+  exact (addInvariant_first w k c on cls hc hnone).1
 
 end Icontract.Meta
